@@ -146,10 +146,11 @@ pub fn c03(ctx: &Ctx) -> (CheckMeta, Outcome) {
         }
         out.merge(run_streams(cfgs, std::sync::Arc::new(items), ctx, &["C03"]));
     }
+    out.merge(crate::props::readers::tail_exact("C03", ctx));
     let meta = CheckMeta {
         property: "C03".into(),
         level: "exploration".into(),
-        rule: "bounded-exhaustive: histories 'o pattern bits; codeword; sentinel (delta(5)+7 raw bits)' written by the real writer and read back by real readers; (a) every offset 0..=129 x writer u64 x readers {buf32 zero-ext, unbuf strict} x core codes; (c) every core code x values below 72 (thorough 300) followed by EVERY byte value 0..=255 (the bits a look-ahead sees) on three writer/offset pairs x four readers; (b) every writer word 8..128 x every reader kind x {zero-ext, strict} x boundary offsets (thorough: every offset 0..=2W+1) x all codes (zeta 1..=63, pi/rice/exp-golomb 0..=63, golomb/minimal-binary moduli 1..=64, 2^i-1, 2^i, 2^i+1, 2^64-1), values dense below a bound plus every 2^i+-2, length steps, domain maxima, seeded extras, restricted to codewords <= 4096 bits; every read variant (default, parametric with/without tables) is tried on a clone; oracle: value, bit_pos after the read = end of the written codeword, sentinel decodes; non-trivial = codeword straddles a writer word boundary at that offset or value > 1023".into(),
+        rule: "bounded-exhaustive: histories 'o pattern bits; codeword; sentinel (delta(5)+7 raw bits)' written by the real writer and read back by real readers; (a) every offset 0..=129 x writer u64 x readers {buf32 zero-ext, unbuf strict} x core codes; (c) every core code x values below 72 (thorough 300) followed by EVERY byte value 0..=255 (the bits a look-ahead sees) on three writer/offset pairs x four readers; (b) every writer word 8..128 x every reader kind x {zero-ext, strict} x boundary offsets (thorough: every offset 0..=2W+1) x all codes (zeta 1..=63, pi/rice/exp-golomb 0..=63, golomb/minimal-binary moduli 1..=64, 2^i-1, 2^i, 2^i+1, 2^64-1), values dense below a bound plus every 2^i+-2, length steps, domain maxima, seeded extras, restricted to codewords <= 4096 bits; every read variant (default, parametric with/without tables) is tried on a clone; strict readers see the stream padded only to their own word size; (d) codewords ending exactly with the last bit of a strict stream; oracle: value, bit_pos after the read = end of the written codeword, sentinel decodes; non-trivial = codeword straddles a writer word boundary at that offset or value > 1023".into(),
         assumptions: vec!["readers that printed the look-ahead diagnostic for a table are not asked to use that table (library documentation: behaviour unpredictable otherwise)".into()],
     };
     (meta, out)
